@@ -40,6 +40,15 @@
 (* (metadata certificates, a pinned certificate, a pinned fingerprint)     *)
 (* crossed with what the ds:KeyInfo of every signature in the message      *)
 (* holds; and the nesting shape x depth of EntitiesDescriptor documents.   *)
+(* Two further ones: what an EncryptedAssertion holds (the certificate     *)
+(* hint in the KeyInfo of its EncryptedKey, where the EncryptedKey is      *)
+(* placed, the key transport and the block cipher), with decryptElement    *)
+(* and xmlenc.Decrypt / RSA.Decrypt / validateRSAKeyIfPresent / CBC.Decrypt*)
+(* / GCM.Decrypt / getCiphertext as a subroutine of the step machine; and  *)
+(* an artifact resolution endpoint that STALLS (accepts, never answers, or *)
+(* answers the headers and never the body) crossed with what bounds the    *)
+(* back-channel call: the SP's own client timeout, or only the context of  *)
+(* the incoming request (deadline, explicit cancellation).                 *)
 (*                                                                         *)
 (* Named deviations.                                                       *)
 (*   Unguarded \subseteq Sites   dereference sites at which the modelled   *)
@@ -56,12 +65,18 @@
 (*       "nobound" (no count at all - the pinned tree).  Registered:       *)
 (*       "parent"; with the others TLC refutes NoPanic (Totality_wipe.cfg, *)
 (*       Totality_pinned.cfg).                                             *)
+(*   ContextDropped  handleArtifactRequest builds the back-channel request *)
+(*       WITHOUT the context of the incoming request (FALSE when           *)
+(*       registered: the request context is passed on).  With TRUE a       *)
+(*       stalled endpoint and a client without a timeout of its own leave  *)
+(*       nothing that ends the wait: TLC refutes NoHang                    *)
+(*       (Totality_ctxdropped.cfg).                                        *)
 (*                                                                         *)
 (* The Properties section is written from the statement of C09 only.       *)
 (***************************************************************************)
 EXTENDS Integers, Sequences, FiniteSets, TLC, Json
 
-CONSTANTS Tier, Unguarded, Unwrapped, DepthRestore
+CONSTANTS Tier, Unguarded, Unwrapped, DepthRestore, ContextDropped
 
 \* dereference sites: <consumer>:<part whose absence reaches it>
 Sites == {"RespRootNil",       \* ParseXMLResponse: doc.Root() of a rootless document
@@ -80,7 +95,14 @@ Sites == {"RespRootNil",       \* ParseXMLResponse: doc.Root() of a rootless doc
           "FpCertElNil",       \* getCertBasedOnFingerprint: x509CertEl.Child of a signature without X509Certificate element
           "FpCertChildIndex",  \* getCertBasedOnFingerprint: x509CertEl.Child[0] of an empty X509Certificate element
           "FpCertChildType",   \* getCertBasedOnFingerprint: Child[0].(*etree.CharData) when the child is not text
-          "StripKeyInfoNil"}   \* validateSignature: sigEl.RemoveChild(keyInfo) of a signature without KeyInfo
+          "StripKeyInfoNil",   \* validateSignature: sigEl.RemoveChild(keyInfo) of a signature without KeyInfo
+          \* decryptElement and xmlenc (the EncryptedAssertion is decrypted BEFORE any signature inside it can be looked at)
+          "EncMethodNil",      \* xmlenc.Decrypt: encryptionMethodEl.SelectAttrValue of an EncryptedData / EncryptedKey without EncryptionMethod
+          "RSAKeyType",        \* validateRSAKeyIfPresent: key.(*rsa.PrivateKey) when the key in hand is a session key already
+          "HintPEMNil",        \* validateRSAKeyIfPresent: certPEM.Bytes when the text of the certificate hint is no PEM body
+          "HintCertKeyType",   \* validateRSAKeyIfPresent: cert.PublicKey.(*rsa.PublicKey) when the hint is a well-formed non-RSA certificate
+          "CipherValueNil",    \* getCiphertext: ciphertextEl.Text() without CipherData/CipherValue
+          "BlockKeyType"}      \* CBC.Decrypt / GCM.Decrypt: key.([]byte) when no EncryptedKey was there to unwrap
 \* at these the design's guard means "no constraint, go on" (an absent Issuer is not compared, a
 \* descriptor without certificate is passed over); at all others it means "reject"
 SkipSites == {"RespIssuerNil", "ArtIssuerNil", "EncCertIndex", "AnyCertIndex", "StripKeyInfoNil"}
@@ -90,6 +112,7 @@ Wrappers == {"handleArtifactRequest", "parseResponseHTTP", "ParseXMLArtifactResp
 
 ASSUME Unguarded \subseteq Sites /\ Unwrapped \subseteq Wrappers
 ASSUME DepthRestore \in {"parent", "wipe", "nobound"}
+ASSUME ContextDropped \in BOOLEAN
 
 \* fired: the dereference sites reached, in order, whose part was absent (where unguarded code panics)
 VARIABLES in, pc, sigReq, hasSig, ai, cj, firstFail, accepted, asn, err, verdict, step, fired,
@@ -99,10 +122,19 @@ VARIABLES in, pc, sigReq, hasSig, ai, cj, firstFail, accepted, asn, err, verdict
           vsEl, vsRet, sigRes, respSig,
           \* EntitiesDescriptor.UnmarshalXML: position in the document, the per-decoder count, the `depth`
           \* local of every UnmarshalXML call that is on the stack
-          pos, ctr, frames
+          pos, ctr, frames,
+          \* handleArtifactRequest: the context the back-channel request carries ("none" before it is built,
+          \* "request": that of the incoming request, "background")
+          octx,
+          \* xmlenc.Decrypt as a subroutine: the type of the key in hand ("rsa": the SP's private key, "bytes": an
+          \* unwrapped session key), the elements of the active Decrypt calls (innermost last: "sib" the
+          \* EncryptedKey next to EncryptedData, "in" the one inside EncryptedData/KeyInfo, "data" EncryptedData),
+          \* what the last call returned
+          dkey, dstk, xdRes
 sv == <<vsEl, vsRet, sigRes, respSig>>
 nv == <<pos, ctr, frames>>
-vars == <<in, pc, sigReq, hasSig, ai, cj, firstFail, accepted, asn, err, verdict, step, fired, sv, nv>>
+xv == <<octx, dkey, dstk, xdRes>>
+vars == <<in, pc, sigReq, hasSig, ai, cj, firstFail, accepted, asn, err, verdict, step, fired, sv, nv, xv>>
 
 ----------------------------------------------------------------------------
 (* the abstract documents *)
@@ -131,7 +163,20 @@ FramingCls == {"ok", "empty", "rootless", "notxml", "notb64", "b64garbage", "bom
                "truncdeflate", "unstable", "hugeattr", "deep"}
 \* behaviour of the artifact resolution endpoint
 ResCls == {"ok", "slow", "connerr", "non200", "empty", "truncated", "readerr", "soapfault",
-           "wrongenvelope", "nobody", "twoAR", "garbage"}
+           "wrongenvelope", "nobody", "twoAR", "garbage",
+           "stall",       \* accepts the request and never answers
+           "stallbody"}   \* answers the status line and the headers, the body never comes
+StallCls == {"stall", "stallbody"}
+\* what ends the wait for a stalled endpoint: the SP's own client timeout ("client"), or ONLY the
+\* context of the incoming request - its deadline, or an explicit cancellation (the browser went
+\* away).  "none": nothing does (every endpoint that is not stalled).
+BoundCls  == {"client", "deadline", "cancel"}
+\* sp.HTTPClient: nil (http.DefaultClient, no timeout) | a client of the deployment without Timeout |
+\* a client with Timeout
+ClientCls == {"default", "custom", "timeout"}
+\* a stalled endpoint with neither a client timeout nor a context that ends is outside the statement:
+\* there is nothing by which the call could return (configuration, not input)
+BoundedBy(b, c) == IF b = "client" THEN c = "timeout" ELSE c \in {"default", "custom"}
 
 RespEntries   == {"xml", "post", "artxml", "artifact"}
 LogoutEntries == {"form", "redirect", "req-post", "req-get"}
@@ -143,8 +188,28 @@ IDPMDEntries  == {"parse-spuse"}
 B64Entries     == {"post"} \cup LogoutEntries \cup AuthnEntries
 DeflateEntries == {"redirect", "req-get", "validate-get", "sso-get"}
 
-RespInT(fam, e, f, r, al, env, resp, t, k) ==
-  [fam |-> fam, entry |-> e, framing |-> f, res |-> r, allowIdp |-> al, env |-> env, resp |-> resp, trust |-> t, ki |-> k]
+\* what an EncryptedAssertion holds (every EncryptedAssertion of the response alike)
+\*   hint   the certificate hint in EncryptedKey/KeyInfo (validateRSAKeyIfPresent looks at the FIRST
+\*          X509Data/X509Certificate): none | the SP's own certificate | another RSA certificate | an ECDSA /
+\*          Ed25519 certificate | base64 that is no certificate | text that is no PEM body | empty element |
+\*          X509Data without certificate | two certificates (own first, ECDSA second; and the other order)
+\*   place  EncryptedKey inside EncryptedData/KeyInfo | next to EncryptedData | both
+\*   kt     key transport, bc block cipher class
+\*   ekp    parts of the EncryptedKey: complete | without EncryptionMethod | without CipherData/CipherValue
+HintCls  == {"absent", "own", "otherrsa", "ec", "ed25519", "badder", "notpem", "empty", "nocert", "two", "twoec"}
+PlaceCls == {"inside", "sibling", "both"}
+KtCls    == {"oaep-mgf1p", "rsa15", "oaep11"}
+BcCls    == {"aescbc", "3des", "gcm"}
+EkpCls   == {"full", "nomethod", "nocipher"}
+EncX(h, p, kt, bc, ekp) == [hint |-> h, place |-> p, kt |-> kt, bc |-> bc, ekp |-> ekp]
+GoodEncX == EncX("own", "inside", "oaep-mgf1p", "aescbc", "full")
+\* the certificate validateRSAKeyIfPresent looks at
+FirstHint(h) == CASE h = "two" -> "own" [] h = "twoec" -> "ec" [] OTHER -> h
+
+RespInX(fam, e, f, r, al, env, resp, t, k, x) ==
+  [fam |-> fam, entry |-> e, framing |-> f, res |-> r, allowIdp |-> al, env |-> env, resp |-> resp, trust |-> t, ki |-> k,
+   encx |-> x, bound |-> "none", client |-> "custom"]
+RespInT(fam, e, f, r, al, env, resp, t, k) == RespInX(fam, e, f, r, al, env, resp, t, k, GoodEncX)
 RespIn(fam, e, f, r, al, env, resp) == RespInT(fam, e, f, r, al, env, resp, "md1", "cert")
 
 Lo(iss, dest, status, sig, ii, irt) == [iss |-> iss, dest |-> dest, status |-> status, sig |-> sig, ii |-> ii, irt |-> irt]
@@ -259,8 +324,12 @@ InitArtFam ==
        /\ (~body => nar = 0)
        /\ in = RespIn("art", e, "ok", "ok", FALSE, Env(body, nar, iss, st, sg, irt, inner),
                       [GoodResp EXCEPT !.sig = (ins = "resp"), !.assns = <<[GoodAssn EXCEPT !.sig = (ins = "assn")]>>])
-  \/ \E r \in ResCls :
+  \/ \E r \in ResCls \ StallCls :
        in = RespIn("resolver", "artifact", "ok", r, FALSE, GoodEnv, GoodResp)
+  \* a stalled endpoint x what bounds the call x the SP's HTTP client
+  \/ \E r \in StallCls, b \in BoundCls, c \in ClientCls :
+       /\ BoundedBy(b, c)
+       /\ in = [RespIn("resolver", "artifact", "ok", r, FALSE, GoodEnv, GoodResp) EXCEPT !.bound = b, !.client = c]
 
 Sensible(e, f) == /\ (f \in {"notb64", "b64garbage"} => e \in B64Entries)
                   /\ (f \in {"bomb", "bombvalid", "truncdeflate"} => e \in DeflateEntries)
@@ -270,7 +339,7 @@ InitFrameFam ==
     /\ Sensible(e, f)
     /\ in = [fam |-> "frame", entry |-> e, framing |-> f, res |-> "ok", allowIdp |-> FALSE, env |-> GoodEnv,
              resp |-> [GoodResp EXCEPT !.sig = TRUE], lo |-> GoodLo, rq |-> GoodRq, md |-> GoodSPMD,
-             trust |-> "md1", ki |-> "cert"]
+             trust |-> "md1", ki |-> "cert", encx |-> GoodEncX, bound |-> "none", client |-> "custom"]
 
 InitLogoutFam ==
   \E e \in LogoutEntries, iss \in BOOLEAN, dest \in BOOLEAN, st \in StatusCls, sg \in BOOLEAN, ii \in BOOLEAN, irt \in BOOLEAN :
@@ -292,6 +361,32 @@ InitTrustRespFam ==
   \E t \in TrustCls, k \in SigKiCls, as \in BOOLEAN :
     RespParts(LAMBDA iss, dest, irt, st, sg :
       in = RespInT("trust", "xml", "ok", "ok", FALSE, GoodEnv, Resp(iss, dest, irt, st, sg, <<[GoodAssn EXCEPT !.sig = as]>>), t, k))
+
+\* what an EncryptedAssertion holds x Response signed or not x Assertion signed or not, through every
+\* response entry point (the EncryptedAssertion is decrypted before any signature inside it can be looked
+\* at: with an unsigned Response nothing has been verified when the EncryptedKey is read)
+\* (quick: every key transport and every block cipher class, not every pair of them)
+AlgPairs(full) == IF full THEN KtCls \X BcCls
+                  ELSE {<<"oaep-mgf1p", "aescbc">>, <<"rsa15", "3des">>, <<"oaep11", "gcm">>,
+                        <<"oaep-mgf1p", "gcm">>, <<"oaep11", "aescbc">>, <<"rsa15", "aescbc">>}
+InitEncFam(full) ==
+  \/ \E e \in RespEntries, h \in HintCls, p \in PlaceCls, alg \in AlgPairs(full), rs \in BOOLEAN, as \in BOOLEAN,
+        a \in (IF full THEN {GoodAssn, NoCond} ELSE {GoodAssn}) :
+       LET kt == alg[1] bc == alg[2] IN
+       in = RespInX("enc", e, "ok", "ok", FALSE, GoodEnv,
+                    [GoodResp EXCEPT !.sig = rs, !.assns = <<[a EXCEPT !.sig = as, !.enc = "yes"]>>], "md1", "cert",
+                    EncX(h, p, kt, bc, "full"))
+  \* an EncryptedKey that lacks a part
+  \/ \E e \in RespEntries, k \in EkpCls \ {"full"}, p \in PlaceCls, rs \in BOOLEAN,
+        h \in (IF full THEN HintCls ELSE {"absent", "own", "ec"}), kt \in (IF full THEN KtCls ELSE {"oaep-mgf1p"}) :
+       in = RespInX("enc", e, "ok", "ok", FALSE, GoodEnv,
+                    [GoodResp EXCEPT !.sig = rs, !.assns = <<[GoodAssn EXCEPT !.enc = "yes"]>>], "md1", "cert",
+                    EncX(h, p, kt, "aescbc", k))
+  \* an EncryptedData that lacks a part, or whose plaintext has no element, x where the EncryptedKey is
+  \/ \E e \in RespEntries, b \in BadEncCls, p \in PlaceCls, h \in {"own", "ec"}, bc \in BcCls :
+       in = RespInX("enc", e, "ok", "ok", FALSE, GoodEnv,
+                    [GoodResp EXCEPT !.sig = TRUE, !.assns = <<[GoodAssn EXCEPT !.enc = b]>>], "md1", "cert",
+                    EncX(h, p, "oaep-mgf1p", bc, "full"))
 
 InitAuthnFam ==
   \E e \in AuthnEntries, iss \in BOOLEAN, nip \in BOOLEAN, dest \in BOOLEAN, au \in BOOLEAN, ai_ \in BOOLEAN,
@@ -326,13 +421,13 @@ InitQ == \/ InitAssnFam({"xml"}, BOOLEAN)
          \/ InitRespFam(RespEntries)
          \/ InitArtFam \/ InitFrameFam \/ InitLogoutFam \/ InitAuthnFam
          \/ InitSPMDFam(FALSE) \/ InitIDPMDFam(FALSE)
-         \/ InitTrustFam(FALSE) \/ InitNestFam
+         \/ InitTrustFam(FALSE) \/ InitNestFam \/ InitEncFam(FALSE)
 InitT == \/ InitAssnFam(RespEntries, BOOLEAN)
          \/ InitRespFam(RespEntries)
          \/ InitCrossFam
          \/ InitArtFam \/ InitFrameFam \/ InitLogoutFam \/ InitAuthnFam
          \/ InitSPMDFam(TRUE) \/ InitIDPMDFam(TRUE)
-         \/ InitTrustFam(TRUE) \/ InitTrustRespFam \/ InitNestFam
+         \/ InitTrustFam(TRUE) \/ InitTrustRespFam \/ InitNestFam \/ InitEncFam(TRUE)
 
 IsResp   == in.entry \in RespEntries
 IsLogout == in.entry \in LogoutEntries
@@ -341,7 +436,7 @@ IsSPMD   == in.entry \in SPMDEntries
 IsNest   == in.fam = "nest"
 IsIDPMD  == in.entry \in IDPMDEntries
 
-Start == CASE in.entry = "artifact" -> "Resolve"
+Start == CASE in.entry = "artifact" -> "ArtBuild"
            [] in.entry \in {"req-post", "req-get"} -> "LoDispatch"
            [] in.entry \in B64Entries -> "B64"
            [] OTHER -> "XRV"
@@ -352,12 +447,13 @@ Init == /\ CASE Tier = "q" -> InitQ [] Tier = "t" -> InitT
         /\ asn = "nil" /\ err = "nil" /\ verdict = "none" /\ step = "none" /\ fired = <<>>
         /\ vsEl = "none" /\ vsRet = "none" /\ sigRes = "none" /\ respSig = "none"
         /\ pos = 1 /\ ctr = 0 /\ frames = <<>>
+        /\ octx = "none" /\ dkey = "rsa" /\ dstk = <<>> /\ xdRes = "none"
 
 ----------------------------------------------------------------------------
 (* outcomes *)
 
 Keep == UNCHANGED in
-GotoF(l) == pc' = l /\ UNCHANGED <<sigReq, hasSig, ai, cj, firstFail, accepted, asn, err, verdict, step, sv, nv>>
+GotoF(l) == pc' = l /\ UNCHANGED <<sigReq, hasSig, ai, cj, firstFail, accepted, asn, err, verdict, step, sv, nv, xv>>
 Goto(l) == GotoF(l) /\ UNCHANGED fired
 
 \* the wrapper through which an error of the response-parsing code reaches the caller
@@ -366,14 +462,14 @@ ErrKind(w) == IF w = "plain" \/ w \in Unwrapped THEN "plain" ELSE "IRE"
 
 \* return an error through wrapper w ("plain": the code returns the bare error here)
 RejectF(why, w) == /\ pc' = "done" /\ verdict' = "error" /\ step' = why /\ err' = ErrKind(w) /\ asn' = "nil"
-                   /\ UNCHANGED <<sigReq, hasSig, ai, cj, firstFail, accepted, sv, nv>>
+                   /\ UNCHANGED <<sigReq, hasSig, ai, cj, firstFail, accepted, sv, nv, xv>>
 Reject(why, w) == RejectF(why, w) /\ UNCHANGED fired
 Succeed == /\ pc' = "done" /\ verdict' = "ok" /\ step' = "none" /\ err' = "nil"
            /\ asn' = IF IsResp THEN "set" ELSE "nil"
-           /\ UNCHANGED <<sigReq, hasSig, ai, cj, firstFail, accepted, fired, sv, nv>>
+           /\ UNCHANGED <<sigReq, hasSig, ai, cj, firstFail, accepted, fired, sv, nv, xv>>
 Panic(site) == /\ pc' = "Panic" /\ verdict' = "panic" /\ step' = site
                /\ fired' = Append(fired, site)
-               /\ UNCHANGED <<sigReq, hasSig, ai, cj, firstFail, accepted, asn, err, sv, nv>>
+               /\ UNCHANGED <<sigReq, hasSig, ai, cj, firstFail, accepted, asn, err, sv, nv, xv>>
 
 \* a dereference of an optional part: unguarded code panics when the part is absent; the
 \* design's guard either rejects or (SkipSites) imposes no constraint
@@ -385,9 +481,9 @@ Deref(site, absent, w, next) ==
 
 \* validateSignature is called for element el; it hands its result to the step ret
 CallVS(el, ret) == /\ pc' = "VSFind" /\ vsEl' = el /\ vsRet' = ret /\ sigRes' = "none"
-                   /\ UNCHANGED <<sigReq, hasSig, ai, cj, firstFail, accepted, asn, err, verdict, step, fired, respSig, nv>>
+                   /\ UNCHANGED <<sigReq, hasSig, ai, cj, firstFail, accepted, asn, err, verdict, step, fired, respSig, nv, xv>>
 ReturnVSF(res) == /\ pc' = vsRet /\ sigRes' = res
-                  /\ UNCHANGED <<sigReq, hasSig, ai, cj, firstFail, accepted, asn, err, verdict, step, vsEl, vsRet, respSig, nv>>
+                  /\ UNCHANGED <<sigReq, hasSig, ai, cj, firstFail, accepted, asn, err, verdict, step, vsEl, vsRet, respSig, nv, xv>>
 ReturnVS(res) == ReturnVSF(res) /\ UNCHANGED fired
 \* a dereference inside validateSignature: the design's guard makes validateSignature return an error
 \* (SkipSites: go on)
@@ -413,10 +509,35 @@ ResFraming == CASE in.res \in {"ok", "slow"} -> in.framing
                 [] OTHER -> "ok"
 EF == IF in.entry = "artifact" THEN ResFraming ELSE in.framing
 
-\* handleArtifactRequest :750  transport errors, status, body read errors - all wrapped
-Resolve == /\ pc = "Resolve" /\ Keep
-           /\ IF in.res \in {"connerr", "non200", "readerr"} THEN Reject("Resolve", "handleArtifactRequest")
-              ELSE Goto("XRV")
+\* handleArtifactRequest :756  everything that goes wrong here is wrapped
+\* :759 MakeArtifactResolveRequest, :765 SoapRequest serialised
+ArtBuild == /\ pc = "ArtBuild" /\ Keep /\ Goto("ArtNewReq")
+\* :771 the back-channel request is built WITH the context of the incoming request (ctx = req.Context())
+ArtNewReq == /\ pc = "ArtNewReq" /\ Keep
+             /\ octx' = IF ContextDropped THEN "background" ELSE "request"
+             /\ pc' = "ArtClient"
+             /\ UNCHANGED <<sigReq, hasSig, ai, cj, firstFail, accepted, asn, err, verdict, step, fired, sv, nv, dkey, dstk, xdRes>>
+\* :779 sp.HTTPClient, or http.DefaultClient when it is nil
+ArtClient == /\ pc = "ArtClient" /\ Keep /\ Goto("ArtDo")
+\* a wait on the endpoint ends when the endpoint answers, when the client's own timer fires, or when the
+\* context carried by the back-channel request is done; a stalled endpoint never answers
+WaitEnds == \/ in.client = "timeout"
+            \/ (octx = "request" /\ in.bound \in {"deadline", "cancel"})
+Block(at) == /\ pc' = "Blocked" /\ verdict' = "hang" /\ step' = at
+             /\ UNCHANGED <<sigReq, hasSig, ai, cj, firstFail, accepted, asn, err, fired, sv, nv, xv>>
+\* :783 httpClient.Do(req): transport errors
+ArtDo == /\ pc = "ArtDo" /\ Keep
+         /\ CASE in.res = "connerr" -> Reject("Resolve", "handleArtifactRequest")
+              [] in.res = "stall" -> (IF WaitEnds THEN Reject("Resolve", "handleArtifactRequest") ELSE Block("ArtDo"))
+              [] OTHER -> Goto("ArtHTTPStatus")
+\* :793 the status must be 200
+ArtHTTPStatus == /\ pc = "ArtHTTPStatus" /\ Keep
+                 /\ IF in.res = "non200" THEN Reject("Resolve", "handleArtifactRequest") ELSE Goto("ArtReadAll")
+\* :797 io.ReadAll(response.Body): read errors; a body that never comes is a wait like the one in Do
+ArtReadAll == /\ pc = "ArtReadAll" /\ Keep
+              /\ CASE in.res = "readerr" -> Reject("Resolve", "handleArtifactRequest")
+                   [] in.res = "stallbody" -> (IF WaitEnds THEN Reject("Resolve", "handleArtifactRequest") ELSE Block("ArtReadAll"))
+                   [] OTHER -> Goto("XRV")
 
 \* ValidateLogoutResponseRequest :1630  a non-empty query parameter selects the redirect decoder
 LoDispatch == /\ pc = "LoDispatch" /\ Keep /\ Goto("B64")
@@ -481,7 +602,7 @@ ArtSig == /\ pc = "ArtSig" /\ Keep /\ CallVS("art", "ArtSigDecide")
 ArtSigDecide == /\ pc = "ArtSigDecide" /\ Keep
                 /\ IF sigRes = "bad" THEN Reject("ArtSignature", "parseArtifactResponse")
                    ELSE /\ sigReq' = (sigRes = "absent") /\ pc' = "ArtInner"
-                        /\ UNCHANGED <<hasSig, ai, cj, firstFail, accepted, asn, err, verdict, step, fired, sv, nv>>
+                        /\ UNCHANGED <<hasSig, ai, cj, firstFail, accepted, asn, err, verdict, step, fired, sv, nv, xv>>
 ArtInner == /\ pc = "ArtInner" /\ Keep
             /\ IF ~E.inner THEN Reject("InnerResponse", "parseArtifactResponse") ELSE Goto("RSig")
 
@@ -501,7 +622,7 @@ RSig == /\ pc = "RSig" /\ Keep
 \* :999 whatever is not "no Signature element" counts as a signature; acting on a failed one is deferred
 RSigNote == /\ pc = "RSigNote" /\ Keep
             /\ hasSig' = (sigRes # "absent") /\ respSig' = sigRes /\ pc' = "RDest"
-            /\ UNCHANGED <<sigReq, ai, cj, firstFail, accepted, asn, err, verdict, step, fired, vsEl, vsRet, sigRes, nv>>
+            /\ UNCHANGED <<sigReq, ai, cj, firstFail, accepted, asn, err, verdict, step, fired, vsEl, vsRet, sigRes, nv, xv>>
 \* :1010 Destination is mandatory on a signed Response
 RDest == /\ pc = "RDest" /\ Keep
          /\ IF hasSig /\ ~R.dest THEN Reject("Destination", InnerWrapper) ELSE Goto("RReqID")
@@ -518,24 +639,118 @@ RSigDecide == /\ pc = "RSigDecide" /\ Keep
               /\ IF sigReq /\ respSig = "bad" THEN Reject("RespSignature", InnerWrapper)
                  ELSE /\ sigReq' = (sigReq /\ respSig # "ok")
                       /\ pc' = IF Len(Visit) = 0 THEN "Finish" ELSE "ADecrypt"
-                      /\ UNCHANGED <<hasSig, ai, cj, firstFail, accepted, asn, err, verdict, step, fired, sv, nv>>
+                      /\ UNCHANGED <<hasSig, ai, cj, firstFail, accepted, asn, err, verdict, step, fired, sv, nv, xv>>
 
 \* an assertion-level failure is remembered; the loop goes on with the next assertion
 NextAssn == IF ai + 1 > Len(Visit) THEN "Finish" ELSE "ADecrypt"
 FailAssnF(why) == /\ firstFail' = IF firstFail = "none" THEN why ELSE firstFail
                   /\ ai' = ai + 1 /\ cj' = 1 /\ pc' = NextAssn
-                  /\ UNCHANGED <<sigReq, hasSig, accepted, asn, err, verdict, step, sv, nv>>
+                  /\ UNCHANGED <<sigReq, hasSig, accepted, asn, err, verdict, step, sv, nv, xv>>
 FailAssn(why) == FailAssnF(why) /\ UNCHANGED fired
 DerefA(site, absent, next) ==
   IF ~absent THEN Goto(next)
   ELSE IF site \in Unguarded THEN Panic(site)
   ELSE FailAssnF(site) /\ fired' = Append(fired, site)
 
-\* decryptElement :1125-1157 doc.Root() of the plaintext (an Assertion element, or a comment only;
-\* C11 covers malformed ciphertext)
+\* parseEncryptedAssertion :1123 for an EncryptedAssertion, parseAssertion for a plaintext one
+\* decryptElement :1137 starts with sp.Key in hand
 ADecrypt == /\ pc = "ADecrypt" /\ Keep
-            /\ IF A.enc \in BadEncCls \ {"rootless"} THEN FailAssn("Decrypt")
-               ELSE DerefA("PlainRootNil", A.enc = "rootless", "ASig")
+            /\ pc' = (IF A.enc = "no" THEN "ASig" ELSE "DEFindData") /\ dkey' = "rsa"
+            /\ UNCHANGED <<sigReq, hasSig, ai, cj, firstFail, accepted, asn, err, verdict, step, fired, sv, nv, octx, dstk, xdRes>>
+
+\* ---- decryptElement :1131 (C11 covers malformed ciphertext)
+X == in.encx
+HasSib   == X.place \in {"sibling", "both"}
+HasInner == X.place \in {"inside", "both"} /\ A.enc # "nokey"
+Top == dstk[Len(dstk)]
+\* xmlenc.Decrypt(key, el) is called for element el
+CallXD(el) == /\ pc' = "XDMethod" /\ dstk' = Append(dstk, el) /\ xdRes' = "none"
+              /\ UNCHANGED <<sigReq, hasSig, ai, cj, firstFail, accepted, asn, err, verdict, step, fired, sv, nv, octx, dkey>>
+\* ... and returns to where it was called: "ok" with the plaintext (a session key when el is an EncryptedKey), or "err"
+RetLabel(el) == CASE el = "sib" -> "DESibRet" [] el = "in" -> "BCInnerRet" [] el = "data" -> "DEDataRet"
+ReturnXDF(res) == /\ pc' = RetLabel(Top) /\ dstk' = SubSeq(dstk, 1, Len(dstk) - 1) /\ xdRes' = res
+                  /\ dkey' = IF res = "ok" /\ Top # "data" THEN "bytes" ELSE dkey
+                  /\ UNCHANGED <<sigReq, hasSig, ai, cj, firstFail, accepted, asn, err, verdict, step, sv, nv, octx>>
+ReturnXD(res) == ReturnXDF(res) /\ UNCHANGED fired
+\* a dereference / type assertion inside xmlenc: the design's guard makes Decrypt return an error
+DerefXD(site, absent, next) ==
+  IF ~absent THEN Goto(next)
+  ELSE IF site \in Unguarded THEN Panic(site)
+  ELSE fired' = Append(fired, site) /\ ReturnXDF("err")
+
+\* :1132 exactly one EncryptedData child
+DEFindData == /\ pc = "DEFindData" /\ Keep
+              /\ IF A.enc = "noencdata" THEN FailAssn("Decrypt") ELSE Goto("DESibKey")
+\* :1138 an EncryptedKey next to EncryptedData is unwrapped first, with sp.Key
+DESibKey == /\ pc = "DESibKey" /\ Keep
+            /\ IF HasSib THEN CallXD("sib") ELSE Goto("DEData")
+DESibRet == /\ pc = "DESibRet" /\ Keep
+            /\ IF xdRes = "err" THEN FailAssn("Decrypt") ELSE Goto("DEData")
+\* :1147 xmlenc.Decrypt(key, encryptedDataEl)
+DEData == /\ pc = "DEData" /\ Keep /\ CallXD("data")
+DEDataRet == /\ pc = "DEDataRet" /\ Keep
+             /\ IF xdRes = "err" THEN FailAssn("Decrypt") ELSE Goto("DEPlainXRV")
+\* :1152 round-trip validation, :1157 parse of the plaintext (an Assertion element, or a comment only)
+DEPlainXRV == /\ pc = "DEPlainXRV" /\ Keep /\ Goto("DEPlainParse")
+DEPlainParse == /\ pc = "DEPlainParse" /\ Keep /\ Goto("DEPlainRoot")
+\* :1160 doc.Root() of the plaintext
+DEPlainRoot == /\ pc = "DEPlainRoot" /\ Keep
+               /\ DerefA("PlainRootNil", A.enc = "rootless", "ASig")
+
+\* ---- xmlenc.Decrypt decrypt.go:56
+\* :57 ./EncryptionMethod, :61 its Algorithm
+XDMethod == /\ pc = "XDMethod" /\ Keep
+            /\ DerefXD("EncMethodNil", IF Top = "data" THEN A.enc = "nomethod" ELSE X.ekp = "nomethod", "XDAlg")
+\* :62 the registered decrypter of that algorithm: key transport for an EncryptedKey, block cipher for EncryptedData
+XDAlg == /\ pc = "XDAlg" /\ Keep
+         /\ Goto(IF Top = "data" THEN "BCInnerKey" ELSE "RKKeyType")
+
+\* ---- RSA.Decrypt pubkey.go:110, validateRSAKeyIfPresent decrypt.go:84
+\* :85 key.(*rsa.PrivateKey) - the key in hand is a session key when an EncryptedKey was unwrapped before
+RKKeyType == /\ pc = "RKKeyType" /\ Keep
+             /\ DerefXD("RSAKeyType", dkey # "rsa", "RKHintFind")
+\* :101 ./KeyInfo/X509Data/X509Certificate (the first one); without it nothing is compared
+RKHintFind == /\ pc = "RKHintFind" /\ Keep
+              /\ Goto(IF X.hint \in {"absent", "nocert"} THEN "RKCipher" ELSE "RKHintPEM")
+\* :104 pem.Decode of the text between certificate armour: nil when the text is no PEM body; :105 certPEM.Bytes
+RKHintPEM == /\ pc = "RKHintPEM" /\ Keep
+             /\ DerefXD("HintPEMNil", X.hint = "notpem", "RKHintParse")
+\* :108 x509.ParseCertificate
+RKHintParse == /\ pc = "RKHintParse" /\ Keep
+               /\ IF X.hint \in {"badder", "empty"} THEN ReturnXD("err") ELSE Goto("RKHintKeyType")
+\* :112 cert.PublicKey.(*rsa.PublicKey)
+RKHintKeyType == /\ pc = "RKHintKeyType" /\ Keep
+                 /\ DerefXD("HintCertKeyType", FirstHint(X.hint) \in {"ec", "ed25519"}, "RKHintMatch")
+\* :116 modulus and exponent are those of the key in hand
+RKHintMatch == /\ pc = "RKHintMatch" /\ Keep
+               /\ IF X.hint = "otherrsa" THEN ReturnXD("err") ELSE Goto("RKCipher")
+\* pubkey.go:116 getCiphertext decrypt.go:70: ./CipherData/CipherValue, base64
+RKCipher == /\ pc = "RKCipher" /\ Keep
+            /\ DerefXD("CipherValueNil", X.ekp = "nocipher", "RKDigest")
+\* :122 DigestMethod (absent: SHA-1; a registered one here)
+RKDigest == /\ pc = "RKDigest" /\ Keep
+            /\ Goto(IF X.kt = "oaep11" THEN "RKMGF" ELSE "RKUnwrap")
+\* :137 xmlenc11 rsa-oaep: the MGF must be MGF1 with the digest's hash (it is)
+RKMGF == /\ pc = "RKMGF" /\ Keep /\ Goto("RKUnwrap")
+\* :147 the key was wrapped for sp.Key
+RKUnwrap == /\ pc = "RKUnwrap" /\ Keep /\ ReturnXD("ok")
+
+\* ---- CBC.Decrypt cbc.go:84, GCM.Decrypt gcm.go:91
+\* ./KeyInfo/EncryptedKey is unwrapped with the key in hand
+BCInnerKey == /\ pc = "BCInnerKey" /\ Keep
+              /\ IF HasInner THEN CallXD("in") ELSE Goto("BCKeyType")
+BCInnerRet == /\ pc = "BCInnerRet" /\ Keep
+              /\ IF xdRes = "err" THEN ReturnXD("err") ELSE Goto("BCKeyType")
+\* key.([]byte) - still the SP's private key when there was no EncryptedKey at all
+BCKeyType == /\ pc = "BCKeyType" /\ Keep
+             /\ DerefXD("BlockKeyType", dkey # "bytes", "BCKeyLen")
+\* the session key has the cipher's length (it was made for it)
+BCKeyLen == /\ pc = "BCKeyLen" /\ Keep /\ Goto("BCCipher")
+\* getCiphertext
+BCCipher == /\ pc = "BCCipher" /\ Keep
+            /\ DerefXD("CipherValueNil", A.enc = "nocipher", "BCOpen")
+\* length checks, decryption, padding (CBC) / authentication (GCM): the ciphertext is genuine
+BCOpen == /\ pc = "BCOpen" /\ Keep /\ ReturnXD("ok")
 \* parseAssertion :1161
 ASig == /\ pc = "ASig" /\ Keep
         /\ IF sigReq THEN CallVS("assn", "ASigDecide") ELSE Goto("AIssuer")
@@ -553,7 +768,7 @@ AConf == /\ pc = "AConf" /\ Keep
             ELSE IF A.confs[cj] = "nodata"
                    THEN DerefA("ConfDataNil", TRUE, "AConf")
                    ELSE /\ cj' = cj + 1
-                        /\ UNCHANGED <<pc, sigReq, hasSig, ai, firstFail, accepted, asn, err, verdict, step, fired, sv, nv>>
+                        /\ UNCHANGED <<pc, sigReq, hasSig, ai, firstFail, accepted, asn, err, verdict, step, fired, sv, nv, xv>>
 \* :1230 assertion.Conditions.NotBefore
 AConditions == /\ pc = "AConditions" /\ Keep
                /\ DerefA("ConditionsNil", A.cond = "absent", "AAudience")
@@ -561,7 +776,7 @@ AConditions == /\ pc = "AConditions" /\ Keep
 AAudience == /\ pc = "AAudience" /\ Keep
              /\ accepted' = IF accepted = 0 THEN ai ELSE accepted
              /\ ai' = ai + 1 /\ cj' = 1 /\ pc' = NextAssn
-             /\ UNCHANGED <<sigReq, hasSig, firstFail, asn, err, verdict, step, fired, sv, nv>>
+             /\ UNCHANGED <<sigReq, hasSig, firstFail, asn, err, verdict, step, fired, sv, nv, xv>>
 Finish == /\ pc = "Finish" /\ Keep
           /\ IF accepted # 0 THEN Succeed
              ELSE Reject(IF firstFail # "none" THEN firstFail ELSE "NoAssertion", InnerWrapper)
@@ -694,18 +909,18 @@ MDParse == /\ pc = "MDParse" /\ Keep
 \* EntitiesDescriptor.UnmarshalXML metadata.go:80, once per start tag, d.DecodeElement inside it
 NDoc == NestDoc(in.shape, Levels(in.depth))
 Fatal(why) == /\ pc' = "Panic" /\ verdict' = "fatal" /\ step' = why
-              /\ UNCHANGED <<sigReq, hasSig, ai, cj, firstFail, accepted, asn, err, fired, sv, nv>>
+              /\ UNCHANGED <<sigReq, hasSig, ai, cj, firstFail, accepted, asn, err, fired, sv, nv, xv>>
 \* :81 depth := the decoder's count; :85 refuse beyond the bound; :87 count + 1; the call goes on the stack
 NestOpen == /\ pc = "NestTok" /\ pos <= Len(NDoc) /\ NDoc[pos] = "o" /\ Keep
             /\ IF DepthRestore # "nobound" /\ ctr >= NestBound THEN Reject("TooDeep", "plain")
                ELSE IF Len(frames) + 1 > NestStack THEN Fatal("StackExhausted")
                ELSE /\ ctr' = ctr + 1 /\ frames' = Append(frames, ctr) /\ pos' = pos + 1
-                    /\ UNCHANGED <<pc, sigReq, hasSig, ai, cj, firstFail, accepted, asn, err, verdict, step, fired, sv>>
+                    /\ UNCHANGED <<pc, sigReq, hasSig, ai, cj, firstFail, accepted, asn, err, verdict, step, fired, sv, xv>>
 \* :88 the deferred clean-up when the element is finished
 NestClose == /\ pc = "NestTok" /\ pos <= Len(NDoc) /\ NDoc[pos] = "c" /\ Keep
              /\ ctr' = IF DepthRestore = "wipe" THEN 0 ELSE frames[Len(frames)]
              /\ frames' = SubSeq(frames, 1, Len(frames) - 1) /\ pos' = pos + 1
-             /\ UNCHANGED <<pc, sigReq, hasSig, ai, cj, firstFail, accepted, asn, err, verdict, step, fired, sv>>
+             /\ UNCHANGED <<pc, sigReq, hasSig, ai, cj, firstFail, accepted, asn, err, verdict, step, fired, sv, xv>>
 \* the document is unmarshalled; the entity with the wanted role is a child of the outermost element
 NestEnd == /\ pc = "NestTok" /\ pos > Len(NDoc) /\ Keep
            /\ IF in.entry = "put-sso" THEN Goto("MDLookup") ELSE Succeed
@@ -723,9 +938,14 @@ SPTrust == /\ pc = "SPTrust" /\ Keep
               ELSE Reject("NoSigningCert", "plain")
 
 ----------------------------------------------------------------------------
-Terminated == pc \in {"done", "Panic"} /\ UNCHANGED vars
+Terminated == pc \in {"done", "Panic", "Blocked"} /\ UNCHANGED vars
 
-Next == \/ Resolve \/ LoDispatch \/ B64 \/ Inflate \/ Validate \/ XRV \/ Root
+Next == \/ ArtBuild \/ ArtNewReq \/ ArtClient \/ ArtDo \/ ArtHTTPStatus \/ ArtReadAll
+        \/ DEFindData \/ DESibKey \/ DESibRet \/ DEData \/ DEDataRet \/ DEPlainXRV \/ DEPlainParse \/ DEPlainRoot
+        \/ XDMethod \/ XDAlg \/ RKKeyType \/ RKHintFind \/ RKHintPEM \/ RKHintParse \/ RKHintKeyType \/ RKHintMatch
+        \/ RKCipher \/ RKDigest \/ RKMGF \/ RKUnwrap
+        \/ BCInnerKey \/ BCInnerRet \/ BCKeyType \/ BCKeyLen \/ BCCipher \/ BCOpen
+        \/ LoDispatch \/ B64 \/ Inflate \/ Validate \/ XRV \/ Root
         \/ Envelope \/ Body \/ ArtResp \/ ArtIRT \/ ArtIssuer \/ ArtStatus \/ ArtSig \/ ArtSigDecide \/ ArtInner
         \/ RSig \/ RSigNote \/ RDest \/ RReqID \/ RIssuer \/ RStatus \/ RSigDecide
         \/ ADecrypt \/ ASig \/ ASigDecide \/ AIssuer \/ ASubject \/ AConf \/ AConditions \/ AAudience \/ Finish
@@ -746,6 +966,10 @@ Done == pc = "done"
 \* that the input can make as deep as it likes ends there).  ("never hangs": every state other
 \* than a terminal one has a successor - TLC's deadlock check, which stays switched on.)
 NoPanic == pc # "Panic"
+
+\* "never ... hangs": no behaviour reaches the state in which the call waits for something that never
+\* comes (an endpoint that does not answer, with nothing else left that could end the wait)
+NoHang == pc # "Blocked"
 
 \* "returns normally with either a result or an error"
 ResultOrError == Done => verdict \in {"ok", "error"} /\ (verdict = "error" <=> err # "nil")
